@@ -17,6 +17,9 @@ EV_DEFAULTS = dict(
     env=0, obs=[-1, -1, -1], next=[-1, -1, -1], act="none", r4=0, term=False, trunc=False, after_end=False,
     box=False, a=[], lo=[], hi=[], finite=True, valid=True, n=0, key="", changed=[], step=-1,
     chosen=-1, argmax=[], current=True, auto=False, chk_next=True, chk_term=True, has_trunc=False, table_current=True, start=-1, same=[], rel=[], rows=[], aliased=[],
+    # step events of value-based routines (envs.ScriptEnv.exec_probe): action values (float32 ordinals) of the routine's
+    # current estimate at the observation the action is executed in; acti = the discrete action as an int (-1: none)
+    has_q=False, qrow=[], acti=-1,
 )
 
 
@@ -29,11 +32,13 @@ def normalise(trace):
     evs = []
     for e in trace["events"]:
         n = dict(EV_DEFAULTS)
-        for k in ("ev", "env", "obs", "next", "r4", "term", "trunc", "after_end", "n", "key", "step", "chosen", "argmax", "current", "auto", "chk_next", "chk_term", "table_current", "start", "same", "rel", "rows", "aliased"):
+        for k in ("ev", "env", "obs", "next", "r4", "term", "trunc", "after_end", "n", "key", "step", "chosen", "argmax", "current", "auto", "chk_next", "chk_term", "table_current", "start", "same", "rel", "rows", "aliased", "has_q", "qrow"):
             if k in e:
                 n[k] = e[k]
         if "act" in e:
             n["act"] = str(e["act"])
+            if isinstance(e["act"], int) and not isinstance(e["act"], bool) and 0 <= e["act"] < 2 ** 31 - 1:
+                n["acti"] = e["act"]
         if e["ev"] == "add" and "trunc" in e:
             n["has_trunc"] = True
         af = e.get("actf")
